@@ -85,6 +85,13 @@ def run(P, rep, tier):
     rep.floor("C02.R1", 9, "file-system sinks in ih5/")
     rep.floor("C02.R2", 6, "owner call sites")
     rep.floor("C02.R4", 11, "raw write sites in overlay.py")
+    # refinement against the pinned tree for every function the rules above looked at (rules/pinned.py)
+    import os as _os
+
+    if not _os.environ.get("MDSA_PINNED_GEN"):
+        from .pinned import refine
+
+        refine(P, rep, ctx, "C02")
 
 
 # ------------------------------------------------------------------------------------------- R1
